@@ -198,6 +198,14 @@ func Build(c Cfg, variant int) File {
 // before the cut, whether the cut is on a block boundary, and what is left of the header.
 func (f File) CutCfg(c Cfg, cut int64) Cfg {
 	out := Cfg{Endkind: "eof", Hdr: c.Hdr}
+	if c.Hdr == "trunc" || c.Hdr == "empty" || c.Hdr == "feature" {
+		if cut >= int64(len(f.Data)) {
+			return Cfg{Endkind: c.Endkind, Hdr: c.Hdr, Blocks: c.Blocks} // uncut: the configuration itself
+		}
+	}
+	if cut >= int64(len(f.Data)) {
+		return c
+	}
 	if c.Hdr != "none" {
 		switch {
 		case cut == 0:
@@ -209,7 +217,7 @@ func (f File) CutCfg(c Cfg, cut int64) Cfg {
 		}
 	}
 	pos := f.HdrLen
-	for k := range c.Blocks {
+	for k := range f.Ends {
 		if f.Ends[k] <= cut {
 			out.Blocks = append(out.Blocks, c.Blocks[k])
 			pos = f.Ends[k]
